@@ -54,7 +54,12 @@ func main() {
 			}
 		}
 		if d.Kind == "record" && has {
-			fmt.Fprintf(&b, "\t%q: func() any { return vc.New%sWithDefaultValues() },\n", n, utils.ExportedIdentifier(n))
+			// only reference the constructor if the generator actually emitted it: its absence is a
+			// finding for the C13 oracle, not a build failure of the harness
+			src, _ := os.ReadFile(filepath.Join(outDir, env.Namespace, utils.ExportedIdentifier(n)+utils.GeneratedFileSuffix))
+			if strings.Contains(string(src), "func New"+utils.ExportedIdentifier(n)+"WithDefaultValues") {
+				fmt.Fprintf(&b, "\t%q: func() any { return vc.New%sWithDefaultValues() },\n", n, utils.ExportedIdentifier(n))
+			}
 		}
 	}
 	b.WriteString("}\n\nconst Generated = true\n")
